@@ -6,6 +6,13 @@ NOTES = ('Static analysis only: every verdict is computed from the ast of /repo/
          'Exit 2 + ANALYSIS-ERROR means the analysis could not decide (never a verdict).')
 
 CHECKS = {
+    'C10': {
+        'level': 'Generated sequences of the Basic/Min/Max/C step generators for symbolic base step, ratio and x against the closed forms parsed from the '
+                 'class docstrings; ordering; defaults (base step, ratio, nominal step, counts incl. the CStepGenerator docstring formula); option handling; '
+                 'and, by end-to-end abstract runs, that every default (method, n 1..10, order 1..8) configuration gets enough steps.',
+        'note': 'default_scale has no specification other than the code and is not checked. Assumes ratio > 1, base step > 0, no zero step.',
+        'technique': 'abstract interpretation of the generator classes over exact algebra; code/docstring agreement; end-to-end abstract runs of Derivative',
+    },
     'C13': {
         'level': 'Formal clauses of C13 by abstract interpretation of dea3: Shanks fixed-point identity (rational function identity in L, a, q), form of '
                  'the convergence / irregular-behaviour guard (cross-checked against Dea._dea), non-negative error estimate, no in-place write to '
